@@ -49,9 +49,13 @@ const (
 func (s c35state) active() bool { return s == c35Open || s == c35HCR || s == c35HCL }
 
 type c35stream struct {
-	id  uint32
-	st  c35state
-	win int64 // server's send window on this stream as granted by the client
+	id          uint32
+	st          c35state
+	win         int64  // server's send window on this stream as granted by the client
+	path        string // request path == handler id
+	declared    int64  // content-length of the request, -1 if absent
+	sent        int64  // DATA payload octets the server accepted on this stream
+	clientEnded bool   // the client's END_STREAM was accepted
 }
 
 type c35blk struct { // header block in progress (HEADERS without END_HEADERS)
@@ -59,6 +63,7 @@ type c35blk struct { // header block in progress (HEADERS without END_HEADERS)
 	variant string
 	es      bool
 	rest    []byte
+	path    string
 }
 
 type c35model struct {
@@ -72,13 +77,15 @@ type c35model struct {
 	connWin  int64
 	seq      int
 	stalled  bool
-	gate     *c35gate // gate family: frame-granular write gate in front of the server's Framer
+	lastPath string
+	reads    map[*h2handler]bool // handlers with a blocked body read
+	gate     *c35gate            // gate family: frame-granular write gate in front of the server's Framer
 	unjudged bool // outcomes are not attributed any more (stall family, or after a violation)
 	panicked bool
 }
 
 func c35newModel(limit int) *c35model {
-	return &c35model{streams: map[uint32]*c35stream{}, limit: limit, iws: 65535, connWin: 65535}
+	return &c35model{streams: map[uint32]*c35stream{}, reads: map[*h2handler]bool{}, limit: limit, iws: 65535, connWin: 65535}
 }
 
 func (m *c35model) state(id uint32) c35state {
@@ -209,6 +216,9 @@ type c35var struct {
 var c35vars = map[string]c35var{
 	"ok":            {pseudo: true},
 	"tetrailers":    {pseudo: true},
+	"cl0":           {pseudo: true},
+	"cl1":           {pseudo: true},
+	"cl2":           {pseudo: true},
 	"nometh":        {reqBad: true, pseudo: true},
 	"duppath":       {reqBad: true, pseudo: true},
 	"pseudoafter":   {reqBad: true, pseudo: true},
@@ -233,6 +243,8 @@ func c35fields(variant, path string, post bool) []string {
 		return base
 	case "tetrailers":
 		return append(base, "te", "trailers")
+	case "cl0", "cl1", "cl2":
+		return append(base, "content-length", variant[2:])
 	case "nometh":
 		return base[2:]
 	case "duppath":
@@ -257,6 +269,27 @@ func c35fields(variant, path string, post bool) []string {
 		return []string{":path", path, "x-trailer", "1"}
 	}
 	panic("c35: unknown variant " + variant)
+}
+
+// c35declared is the content-length a request variant declares (-1: none).
+func c35declared(variant string) int64 {
+	switch variant {
+	case "cl0":
+		return 0
+	case "cl1":
+		return 1
+	case "cl2":
+		return 2
+	}
+	return -1
+}
+
+// c35mismatch: END_STREAM arrives although the DATA octets do not add up to the declared
+// content-length (RFC 7540 8.1.2.6: malformed). The statement does not name content-length, so
+// on the wire both a stream/connection error and silence are admitted; what is checked strictly
+// is that the handler is never shown a clean end of body for such a request (c35readCheck).
+func c35mismatch(why string) c35exp {
+	return c35anyErr(why, ErrCodeProtocol).orQuiet()
 }
 
 func (m *c35model) expectHeaders(id uint32, variant string, es bool) c35exp {
@@ -284,6 +317,11 @@ func (m *c35model) expectHeaders(id uint32, variant string, es bool) c35exp {
 				rst:    []ErrCode{P, ErrCodeRefusedStream},
 				goaway: []ErrCode{P, ErrCodeRefusedStream, ErrCodeEnhanceYourCalm, ErrCodeNo}})
 		}
+		if x.why == "" && es && c35declared(variant) > 0 {
+			y := c35anyErr("request-content-length-without-body", P)
+			y.started = true
+			return y
+		}
 		if x.why == "" {
 			return c35exp{why: "valid-request", started: true, rst: []ErrCode{ErrCodeRefusedStream}}
 		}
@@ -292,6 +330,9 @@ func (m *c35model) expectHeaders(id uint32, variant string, es bool) c35exp {
 		return c35anyErr("headers-on-skipped-id", P, SC)
 	case c35Open, c35HCL:
 		if es && !v.pseudo && !v.fieldBad && !v.connSpec {
+			if s := m.streams[id]; s.declared >= 0 && s.sent != s.declared {
+				return c35mismatch("trailers-content-length-mismatch")
+			}
 			return c35quiet("valid-trailers")
 		}
 		if !es && !v.pseudo && !v.fieldBad && !v.connSpec {
@@ -310,7 +351,7 @@ func (m *c35model) expectHeaders(id uint32, variant string, es bool) c35exp {
 	panic("c35: state")
 }
 
-func (m *c35model) expectData(id uint32) c35exp {
+func (m *c35model) expectData(id uint32, n int64, es bool) c35exp {
 	P, SC := ErrCodeProtocol, ErrCodeStreamClosed
 	if id == 0 {
 		return c35connErr("data-on-stream-0", P)
@@ -321,6 +362,16 @@ func (m *c35model) expectData(id uint32) c35exp {
 	case c35ImplicitClosed:
 		return c35anyErr("data-on-skipped-id", P, SC)
 	case c35Open:
+		s := m.streams[id]
+		if s.declared >= 0 && s.sent+n > s.declared {
+			return c35mismatch("data-exceeds-content-length")
+		}
+		if es && s.declared >= 0 && s.sent+n != s.declared {
+			return c35mismatch("end-stream-short-of-content-length")
+		}
+		if n == 0 {
+			return c35quiet("valid-empty-data")
+		}
 		return c35quiet("valid-data")
 	case c35HCL:
 		return c35anyErr("data-on-half-closed-local", SC, P).orQuiet()
@@ -475,7 +526,10 @@ func c35C(id uint32, eh bool) c35ev {
 	return c35ev{name: fmt.Sprintf("C%d%s", id, c35b(eh, ":EH", "")), kind: "C", id: id, eh: eh}
 }
 func c35D(id uint32, es bool) c35ev {
-	return c35ev{name: fmt.Sprintf("D%d%s", id, c35b(es, ":ES", "")), kind: "D", id: id, es: es}
+	return c35ev{name: fmt.Sprintf("D%d%s", id, c35b(es, ":ES", "")), kind: "D", id: id, es: es, val: 1}
+}
+func c35D0(id uint32, es bool) c35ev { // empty DATA frame
+	return c35ev{name: fmt.Sprintf("D%d:empty%s", id, c35b(es, ":ES", "")), kind: "D", id: id, es: es, val: 0}
 }
 func c35R(id uint32) c35ev { return c35ev{name: fmt.Sprintf("R%d", id), kind: "R", id: id} }
 func c35P(id, dep uint32) c35ev {
@@ -572,6 +626,10 @@ func c35alphabet(fam string, e *h2env, m *c35model) []c35ev {
 		add(c35H(1, "ok", true), c35H(1, "ok", false), c35H(3, "ok", true), c35D(1, true), c35R(1), c35M("PING", 0),
 			c35ev{name: c35b(m.stalled, "UNSTALL", "STALL"), kind: "STALL"})
 		hops = []string{"RET", "READ", "WF"}
+	case "clen", "clen0", "clen1", "clen2":
+		// the request (POST without END_STREAM; content-length absent / 0 / 1 / 2) is the prelude
+		add(c35D0(1, false), c35D0(1, true), c35D(1, false), c35D(1, true), c35H(1, "trailer", true), c35R(1), c35H(3, "cl1", true))
+		hops = []string{"RET", "READ"}
 	case "gate":
 		add(c35H(1, "ok", true), c35H(1, "ok", false), c35H(3, "ok", true), c35R(1), c35W(1, 1, "1"),
 			c35ev{name: c35b(m.gate != nil && m.gate.shut, "UNGATE", "GATE"), kind: "GATE"})
@@ -600,17 +658,77 @@ func c35alphabet(fam string, e *h2env, m *c35model) []c35ev {
 	return evs
 }
 
-func c35poll(e *h2env) {
+// c35poll collects handler commands that were blocked and completed meanwhile; done (may be nil)
+// is called for every completed body read.
+func c35poll(e *h2env, m *c35model, done func(h *h2handler, res h2res)) {
 	e.mu.Lock()
-	hs := make([]*h2handler, 0, len(e.handlers))
-	for _, h := range e.handlers {
-		hs = append(hs, h)
+	hs := make([]*h2handler, 0, len(e.order))
+	for _, p := range e.order {
+		hs = append(hs, e.handlers[p])
 	}
 	e.mu.Unlock()
 	for _, h := range hs {
-		if h.busy {
-			h.poll()
+		if h != nil && h.busy {
+			if res, blocked := h.poll(); !blocked && m.reads[h] {
+				delete(m.reads, h)
+				if done != nil {
+					done(h, res)
+				}
+			}
 		}
+	}
+}
+
+// c35readCheck: what the handler is shown as request body. It never gets more octets than the
+// server accepted, and a clean end of body (io.EOF) only if the client ended the stream with the
+// DATA octets matching the declared content-length (or exactly the declared number of octets was
+// delivered): a request that is malformed per RFC 7540 8.1.2.6, or not finished yet, must not
+// look complete to the handler.
+func c35readCheck(r *vk.Run, id string, hist []string, m *c35model, h *h2handler, res h2res) {
+	if m.unjudged || m.panicked {
+		return
+	}
+	var s *c35stream
+	for _, x := range m.streams {
+		if x.path == h.id {
+			s = x
+		}
+	}
+	if s == nil {
+		return
+	}
+	got := int64(len(h.bodyRead))
+	bad := ""
+	switch {
+	case got > s.sent:
+		bad = "more-octets-than-accepted"
+	case res.err == io.EOF:
+		complete := s.clientEnded && (s.declared < 0 || s.declared == s.sent) && got == s.sent
+		if !complete && !(s.declared >= 0 && got == s.declared) {
+			switch {
+			case !s.clientEnded:
+				bad = "clean-eof-before-end-stream"
+			case s.declared >= 0 && s.declared != s.sent:
+				bad = "clean-eof-on-content-length-mismatch"
+			default:
+				bad = "clean-eof-short-read"
+			}
+		}
+	}
+	cl := "cl-absent"
+	if s.declared >= 0 {
+		cl = fmt.Sprintf("cl=%d", s.declared)
+	}
+	if res.err == nil {
+		r.Outcome("body-read=>data")
+	} else if res.err == io.EOF {
+		r.Outcome("body-read=>eof")
+	} else {
+		r.Outcome("body-read=>error")
+	}
+	if bad != "" {
+		m.unjudged = true
+		r.Violation("body:"+bad, id, fmt.Sprintf("handler of stream %d (%s, client sent %d accepted DATA octets, END_STREAM accepted=%v) read %d octets in total, last read n=%d err=%v; history %v", s.id, cl, s.sent, s.clientEnded, got, res.n, res.err, hist))
 	}
 }
 
@@ -655,6 +773,9 @@ func c35panicClass(p string) string {
 func c35send(e *h2env, m *c35model, ev c35ev) (exp c35exp, target uint32, early bool) {
 	m.seq++
 	path := fmt.Sprintf("/s%d-%d", ev.id, m.seq)
+	if ev.kind == "H" {
+		m.lastPath = path
+	}
 	target = ev.id
 	inBlock := m.blk != nil
 	switch ev.kind {
@@ -670,7 +791,7 @@ func c35send(e *h2env, m *c35model, ev c35ev) (exp c35exp, target uint32, early 
 			}
 			e.fr.WriteHeaders(HeadersFrameParam{StreamID: ev.id, BlockFragment: block[:cut], EndStream: ev.es, EndHeaders: false})
 			if !inBlock {
-				m.blk = &c35blk{id: ev.id, variant: ev.variant, es: ev.es, rest: block[cut:]}
+				m.blk = &c35blk{id: ev.id, variant: ev.variant, es: ev.es, rest: block[cut:], path: path}
 				early = true
 			}
 		}
@@ -698,8 +819,8 @@ func c35send(e *h2env, m *c35model, ev c35ev) (exp c35exp, target uint32, early 
 		}
 		inBlock = false // CONTINUATION is the one frame allowed inside a header block
 	case "D":
-		exp = m.expectData(ev.id)
-		e.fr.WriteData(ev.id, ev.es, []byte("d"))
+		exp = m.expectData(ev.id, int64(ev.val), ev.es)
+		e.fr.WriteData(ev.id, ev.es, []byte("d")[:ev.val])
 	case "R":
 		exp = m.expectRst(ev.id)
 		e.fr.WriteRSTStream(ev.id, ErrCodeCancel)
@@ -838,7 +959,7 @@ func c35book(e *h2env, m *c35model, frames []h2frame) {
 // was obs.
 func c35apply(m *c35model, ev c35ev, obs c35obs, early bool) {
 	dead := obs.kind == "goaway" || obs.kind == "close"
-	headers := func(id uint32, es bool) {
+	headers := func(id uint32, es bool, variant, path string) {
 		if id == 0 || id%2 == 0 || dead {
 			return
 		}
@@ -854,9 +975,14 @@ func c35apply(m *c35model, ev c35ev, obs c35obs, early bool) {
 			if obs.kind == "quiet" {
 				st = c35ClosedOurRst // ignored: only possible after a violation; keep the model harmless
 			}
-			m.streams[id] = &c35stream{id: id, st: st, win: m.iws}
+			decl := c35declared(variant)
+			if es && decl > 0 {
+				decl = -1 // HEADERS(END_STREAM) declaring a body: the statement is silent, not judged (see expectHeaders)
+			}
+			m.streams[id] = &c35stream{id: id, st: st, win: m.iws, path: path, declared: decl, clientEnded: es}
 		case c35Open, c35HCL:
 			if obs.kind == "quiet" && es {
+				m.streams[id].clientEnded = true
 				if m.streams[id].st == c35Open {
 					m.streams[id].st = c35HCR
 				} else {
@@ -868,20 +994,23 @@ func c35apply(m *c35model, ev c35ev, obs c35obs, early bool) {
 	switch ev.kind {
 	case "H":
 		if ev.eh && m.blk == nil {
-			headers(ev.id, ev.es)
+			headers(ev.id, ev.es, ev.variant, m.lastPath)
 		}
 	case "C":
 		if m.blk != nil && m.blk.id == ev.id && ev.eh && !early {
-			headers(m.blk.id, m.blk.es)
+			headers(m.blk.id, m.blk.es, m.blk.variant, m.blk.path)
 			m.blk = nil
 		}
 	case "D":
-		if s := m.streams[ev.id]; s != nil && obs.kind == "quiet" && ev.es {
-			switch s.st {
-			case c35Open:
-				s.st = c35HCR
-			case c35HCL:
-				s.st = c35ClosedEnd
+		if s := m.streams[ev.id]; s != nil && obs.kind == "quiet" && (s.st == c35Open || s.st == c35HCL) {
+			s.sent += int64(ev.val)
+			if ev.es {
+				s.clientEnded = true
+				if s.st == c35Open {
+					s.st = c35HCR
+				} else {
+					s.st = c35ClosedEnd
+				}
 			}
 		}
 	case "R":
@@ -952,7 +1081,10 @@ func c35step(r *vk.Run, id string, hist []string, e *h2env, m *c35model, ev c35e
 		return
 	case "RET", "READ", "WF", "HWF":
 		if ev.h.busy {
-			ev.h.poll()
+			if res, blocked := ev.h.poll(); !blocked && m.reads[ev.h] {
+				delete(m.reads, ev.h)
+				c35readCheck(r, id, hist, m, ev.h, res)
+			}
 		}
 		if ev.h.done || ev.h.busy || ev.h.cmdsClosed {
 			c35book(e, m, e.recv())
@@ -963,7 +1095,11 @@ func c35step(r *vk.Run, id string, hist []string, e *h2env, m *c35model, ev c35e
 		case "RET":
 			ev.h.do(h2cmd{op: "return"})
 		case "READ":
-			ev.h.do(h2cmd{op: "read", n: 64})
+			if res, blocked := ev.h.do(h2cmd{op: "read", n: 64}); blocked {
+				m.reads[ev.h] = true
+			} else {
+				c35readCheck(r, id, hist, m, ev.h, res)
+			}
 		case "WF":
 			if _, blocked := ev.h.do(h2cmd{op: "write", n: 3}); !blocked {
 				ev.h.do(h2cmd{op: "flush"})
@@ -1035,7 +1171,7 @@ func c35finish(r *vk.Run, id string, hist []string, e *h2env, m *c35model) {
 		e.setStall(false)
 		c35book(e, m, e.recv())
 	}
-	c35poll(e)
+	c35poll(e, m, func(h *h2handler, res h2res) { c35readCheck(r, id, hist, m, h, res) })
 	switch {
 	case m.closed:
 	case m.goaway:
@@ -1100,11 +1236,21 @@ func c35exec(t *testing.T, r *vk.Run, fam string, depth int, replayLen int, ch *
 		var hist []string
 		post := 0
 		id := fam + "|trace:"
+		if strings.HasPrefix(fam, "clen") {
+			// prelude: the body-carrying request whose content-length is the family's dimension
+			variant := "ok"
+			if fam != "clen" {
+				variant = "cl" + fam[4:]
+			}
+			ev := c35H(1, variant, false)
+			hist = append(hist, ev.name)
+			c35step(r, id, hist, e, m, ev)
+		}
 		for d := 0; d < depth; d++ {
 			if replayLen >= 0 && d >= replayLen {
 				break
 			}
-			c35poll(e)
+			c35poll(e, m, func(h *h2handler, res h2res) { c35readCheck(r, id, hist, m, h, res) })
 			if m.closed {
 				break
 			}
@@ -1128,6 +1274,7 @@ func c35exec(t *testing.T, r *vk.Run, fam string, depth int, replayLen int, ch *
 			hist = append(hist, ev.name)
 			id = fam + "|trace:" + ch.TraceString()
 			c35step(r, id, hist, e, m, ev)
+			c35poll(e, m, func(h *h2handler, res h2res) { c35readCheck(r, id, hist, m, h, res) })
 			r.Transitions(1)
 		}
 		end := "alive"
@@ -1163,7 +1310,7 @@ func TestVerifC35(t *testing.T) {
 		{"ids", r.Pick(4, 6)},
 		{"body", r.Pick(4, 5)},
 		{"malformed", r.Pick(3, 4)},
-		{"limit1", r.Pick(5, 7)},
+		{"limit1", r.Pick(5, 6)},
 		{"limit2", r.Pick(4, 6)},
 		{"cont", r.Pick(4, 5)},
 		{"flow", r.Pick(4, 5)},
@@ -1171,6 +1318,10 @@ func TestVerifC35(t *testing.T) {
 		{"ctrl", r.Pick(3, 4)},
 		{"stall", r.Pick(4, 6)},
 		{"gate", r.Pick(5, 6)},
+		{"clen", r.Pick(4, 5)},
+		{"clen0", r.Pick(4, 5)},
+		{"clen1", r.Pick(4, 5)},
+		{"clen2", r.Pick(4, 5)},
 	}
 	for _, f := range fams {
 		replayLen := -1
